@@ -40,6 +40,7 @@ func backgroundCompaction(db *DB) {
 					continue
 				}
 
+				verifPoint("compaction.beforeReflect")
 				err = db.sstableManager.reflectCompactionResult(metadata)
 				if err != nil {
 					return err
@@ -64,6 +65,7 @@ func executeCompaction(db *DB) (compactionMetadata *proto.CompactionMetadata, er
 
 	// make sure we're always compacting with the right order in mind
 	sort.Strings(paths)
+	verifPoint("compaction.selected")
 
 	start := time.Now()
 	writeFolder, err := os.MkdirTemp(db.basePath, SSTableCompactionPathPrefix)
@@ -116,6 +118,7 @@ func executeCompaction(db *DB) (compactionMetadata *proto.CompactionMetadata, er
 		}
 	}()
 
+	iterators = verifWrapCompactionInputs(iterators)
 	reduceFunc := sstables.ScanReduceLatestWinsSkipTombstones
 	err = sstables.NewSSTableMerger(db.cmp).MergeCompact(iterators, writer, reduceFunc)
 	if err != nil {
@@ -140,6 +143,7 @@ func executeCompaction(db *DB) (compactionMetadata *proto.CompactionMetadata, er
 		return nil, err
 	}
 
+	verifPoint("compaction.flagWritten")
 	log.Printf("done compacting %d sstables in %v. Path: [%s]\n", len(paths), time.Since(start), writeFolder)
 
 	return compactionMetadata, nil
